@@ -22,6 +22,9 @@ OBLIGATIONS = [
     SX("sx_clustering", "sx_c19", "ob_clustering", cls="E", quick=300, thorough=1200, parts={"quick": 4, "thorough": 5},
        functions=[P + "upgma.pyx:upgma (compiled)", P + "nj.pyx:neighbor_joining (compiled)"],
        bounds="UPGMA: every symmetric matrix over n = 2..4 (thorough 5) taxa with entries from a 3-5 value menu (ties included): every index one leaf, ultrametric, merge height = half average linkage; NJ: additive matrices of 3 tree shapes x 8 (24) labelings, with duplicated taxa (zero distances) and the all-zero matrix: every path length reproduced"),
+    SX("sx_upgma_large", "sx_c19", "ob_upgma_large", cls="E", quick=200, parts=1,
+       functions=[P + "upgma.pyx:upgma (compiled)"],
+       bounds="300 and 600 taxa on a line in well separated groups (cluster sizes beyond 255 and 511): every index one leaf; the top merges sit at half the average-linkage distance"),
 ]
 EXPLANATION = "C19: trees contain every taxon once and keep distances through Newick."
 ASSUMPTIONS = []
